@@ -24,7 +24,8 @@ def _apply(text, v):
             return None
         k = v.get('nth', 0)
         mm = m[k]
-        return text[:mm.start()] + mm.expand(v['replace']) + text[mm.end():]
+        rep = v['replace'](mm) if callable(v['replace']) else mm.expand(v['replace'])
+        return text[:mm.start()] + rep + text[mm.end():]
     n = text.count(find)
     if n < 1 or (v.get('unique', True) and n != 1):
         return None
